@@ -267,6 +267,15 @@ func (p *VP9Packet) Unmarshal(packet []byte) ([]byte, error) { // nolint:cyclop
 	p.V = packet[0]&0x02 != 0
 	p.Z = packet[0]&0x01 != 0
 
+	// Fields of the optional parts are per packet: do not keep (or append to) those of an earlier packet.
+	p.PictureID = 0
+	p.TID, p.U, p.SID, p.D = 0, false, 0, false
+	p.PDiff = nil
+	p.TL0PICIDX = 0
+	p.NS, p.Y, p.G, p.NG = 0, false, false, 0
+	p.Width, p.Height = nil, nil
+	p.PGTID, p.PGU, p.PGPDiff = nil, nil, nil
+
 	pos := 1
 	var err error
 
